@@ -29,6 +29,13 @@ use std::cell::RefCell;
 use std::collections::{BTreeMap, BTreeSet};
 use vh_common::{ModelProc, join};
 
+/// a second, multi-script vocabulary (CJK runs, diacritics, case pairs outside ASCII, digits, a
+/// ligature, a one-byte and a one-character-three-byte word) used by a fraction of the cases: the
+/// tokenizer chain (SimpleTokenizer, RemoveLong, LowerCaser, English stemmer) and the parser's
+/// `to_lowercase` are glue between the text and the model's token numbers
+pub const VOCAB_MS: [&str; 14] =
+    ["水", "検索エンジン", "데이터", "русский", "РУССКИЙ", "naïve", "NAÏVE", "Straße", "ﬁne", "42", "x", "É", "東京 タワー", "running"];
+
 pub const VOCAB: [&str; 12] =
     ["alpha", "beta", "gamma", "delta", "run", "running", "fox", "foxes", "lazy", "a", "well-known", "Beta"];
 
@@ -63,6 +70,8 @@ pub struct Naive {
     /// holding only left-over entries of such an id are not rewritten by that remove, so a reload can
     /// bring the document back. Cleared by `purge_ids`.
     pub resurrectable: BTreeSet<u64>,
+    /// a `remove` of a live document did not name all of its tokens (mirror of Lean `removesCover`)
+    pub noncover_seen: bool,
 }
 
 /// key of the second known finding: a removed document is back after flush + reload
@@ -93,6 +102,11 @@ impl Naive {
     }
     fn on_remove(&mut self, id: u64, text_toks: &BTreeSet<String>) -> bool {
         let gone = self.docs.remove(&id);
+        if let Some((toks, _)) = &gone
+            && !toks.iter().all(|t| text_toks.contains(t))
+        {
+            self.noncover_seen = true;
+        }
         if gone.is_some() && self.stale.get(&id).is_some_and(|s| !s.is_empty()) {
             self.resurrectable.insert(id);
         }
@@ -551,6 +565,29 @@ impl<'m> World<'m> {
                 return;
             }
         };
+        // which branches of the model's evaluator this query visits
+        {
+            let toks: Vec<&str> = qline.split(' ').collect();
+            for (i, t) in toks.iter().enumerate() {
+                match *t {
+                    "T" => self.hit(if toks.get(i + 1) == Some(&"-") { "q:term-without-tokens" } else if toks.get(i + 1).is_some_and(|x| x.contains(',')) { "q:term-multi-token" } else { "q:term" }),
+                    "N" => self.hit(if toks.get(i + 1) == Some(&"N") { "q:not-not" } else if i == 0 { "q:not-top-level" } else { "q:not" }),
+                    "A" | "O" => {
+                        let n: usize = toks.get(i + 1).and_then(|x| x.parse().ok()).unwrap_or(0);
+                        let name = if *t == "A" { "and" } else { "or" };
+                        self.hit(&format!("q:{name}-{}", match n { 0 => "empty", 1 => "single", _ => "many" }));
+                    }
+                    _ => {}
+                }
+            }
+            if qline.starts_with("A ") {
+                // NOT-only conjunction / leading NOT
+                let kids: Vec<&str> = toks.iter().skip(2).cloned().collect();
+                if kids.first() == Some(&"N") {
+                    self.hit("q:and-leading-not");
+                }
+            }
+        }
         let n = full.len();
         let ids: Vec<u64> = full.iter().map(|x| x.0).collect();
         let scored = dash(join(full.iter().map(|(i, s)| format!("{i}:{}", s.to_bits())), ","));
@@ -614,6 +651,113 @@ impl<'m> World<'m> {
         self.corr(what, &format!("q {scored} {qline}"), &format!("ok set={} rank={}", dash(join(sorted.iter(), ",")), dash(join(ids.iter(), ","))));
         for (k, rid) in tops.iter() {
             self.corr(what, &format!("topk {k} {scored}"), &dash(join(rid.iter(), ",")));
+        }
+        // ---- the scores themselves: for a term query the model supplies every integer the formula
+        // reads (N, total_tokens, df, tf, document length); the f32 formula is re-evaluated here and must
+        // give the returned bit patterns. Exact for one or two query tokens (x + y = y + x in f32; with
+        // three or more the real code sums in hash order, which is only measured).
+        if let Kind::Text(t) = &kind {
+            self.check_score_bits(what, t, &p, &full);
+            // the *statement* of term_general / term_exact_partial, executed: the ghost state of the
+            // history predicts the result; its flags must agree with the harness's own classifier
+            let toks = self.tokens(t);
+            let mut nums: Vec<usize> = toks.keys().map(|x| self.num(x)).collect();
+            nums.sort();
+            if !nums.is_empty() && self.model.is_some() && !self.stop {
+                let g = self.model.as_deref_mut().unwrap().ask(&format!("gq {}", join(nums.iter(), ",")));
+                self.res.compared += 1;
+                if g != "n/a" {
+                    self.hit("ghost:compared");
+                    let imp = dash(join(sorted.iter(), ","));
+                    if g != imp {
+                        self.res.disagreements.push((format!("{what} [ghost prediction gq]"), g, imp));
+                        self.stop = true;
+                        return;
+                    }
+                    let vstale = self.naive.docs.keys().any(|i| self.naive.stale.get(i).is_some_and(|st| st.iter().any(|x| toks.contains_key(x))));
+                    let exp = format!("cover={} vstale={}", !self.naive.noncover_seen, vstale);
+                    self.corr(what, &format!("gflags {}", join(nums.iter(), ",")), &exp);
+                } else {
+                    self.hit("ghost:n/a-after-load");
+                }
+            }
+        } else {
+            // the set-algebra reading `denote` of the AST, evaluated by the model
+            self.corr(what, &format!("dq {qline}"), &dash(join(sorted.iter(), ",")));
+        }
+    }
+
+    fn check_score_bits(&mut self, what: &str, text: &str, p: &Option<BM25Params>, full: &[(u64, f32)]) {
+        if self.stop || self.model.is_none() {
+            return;
+        }
+        let toks = self.tokens(text);
+        let mut nums: Vec<usize> = toks.keys().map(|t| self.num(t)).collect();
+        nums.sort();
+        if nums.is_empty() {
+            return;
+        }
+        let line = format!("si {}", join(nums.iter(), ","));
+        let ans = self.model.as_deref_mut().unwrap().ask(&line);
+        self.res.compared += 1;
+        // N=<n> total=<t> dup=<bool> | tok:id/tf/len+… | …
+        let mut parts = ans.split('|');
+        let head = parts.next().unwrap_or("");
+        let get = |k: &str| head.split(' ').find_map(|x| x.strip_prefix(k)).map(|x| x.to_string());
+        let (Some(n), Some(total), Some(dup)) = (get("N=").and_then(|x| x.parse::<u64>().ok()), get("total=").and_then(|x| x.parse::<u64>().ok()), get("dup=")) else {
+            self.res.disagreements.push((format!("{what} [model line: {line}]"), ans.clone(), "score inputs".into()));
+            self.stop = true;
+            return;
+        };
+        if dup == "true" {
+            self.hit("score-bits:skipped-duplicate-entries");
+            return;
+        }
+        let mut infos: Vec<Vec<(u64, f32, f32)>> = Vec::new();
+        for part in parts {
+            let part = part.trim();
+            if part.is_empty() {
+                continue;
+            }
+            let Some((_, list)) = part.split_once(':') else { continue };
+            infos.push(
+                list.split('+')
+                    .filter_map(|e| {
+                        let mut it = e.split('/');
+                        Some((it.next()?.parse().ok()?, it.next()?.parse::<usize>().ok()? as f32, it.next()?.parse::<usize>().ok()? as f32))
+                    })
+                    .collect(),
+            );
+        }
+        if infos.len() > 2 {
+            self.hit("score-bits:skipped-3+tokens");
+            return;
+        }
+        // BM25Params::sanitized, written again
+        let raw = p.clone().unwrap_or(BM25Params { k1: 1.2, b: 0.75 });
+        let k1 = if raw.k1.is_finite() { raw.k1.clamp(0.0, 1000.0) } else { 1.2 };
+        let b = if raw.b.is_finite() { raw.b.clamp(0.0, 1.0) } else { 0.75 };
+        let doc_count = n as f32;
+        let avg = (if n == 0 { 0.0 } else { total as f32 / n as f32 }).max(1.0);
+        let mut expect: BTreeMap<u64, f32> = BTreeMap::new();
+        for info in &infos {
+            let df = info.len() as f32;
+            let idf = ((doc_count - df + 0.5) / (df + 0.5) + 1.0).ln();
+            for (id, tf, len) in info {
+                let tfc = (tf * (k1 + 1.0)) / (tf + k1 * (1.0 - b + b * len / avg));
+                *expect.entry(*id).or_default() += idf * tfc;
+            }
+        }
+        let got: BTreeMap<u64, u32> = full.iter().map(|(i, s)| (*i, s.to_bits())).collect();
+        let exp: BTreeMap<u64, u32> = expect.iter().map(|(i, s)| (*i, s.to_bits())).collect();
+        self.hit(&format!("score-bits:compared-{}tok", infos.len()));
+        if got != exp {
+            self.res.disagreements.push((
+                format!("{what} [score bits from the model's inputs: {line} -> {ans}]"),
+                format!("{exp:?}"),
+                format!("{got:?}"),
+            ));
+            self.stop = true;
         }
     }
 
